@@ -40,6 +40,7 @@ class Program:
         f = self.facts.funcs.get(cid)
         if f is not None:
             out.append(f)
+        out.extend(self.facts.alts.get(cid, ()))
         for j in self.overriders().get(cid, ()):
             g = self.facts.funcs.get(j)
             if g is not None and g not in out:
